@@ -186,7 +186,22 @@ func (c *sgraphCase) proto() *onnx.ModelProto {
 		g.Node = append(g.Node, &onnx.NodeProto{Name: name, OpType: fmt.Sprintf("Sym%d", n.op), Input: n.in, Output: n.out, Attribute: []*onnx.AttributeProto{
 			{Name: "attr", I: n.attr, Type: onnx.AttributeProto_INT}, {Name: "nout", I: int64(n.nout), Type: onnx.AttributeProto_INT}, {Name: "fail", I: fl, Type: onnx.AttributeProto_INT}}})
 	}
-	return &onnx.ModelProto{OpsetImport: []*onnx.OperatorSetIdProto{{Version: c.opset}}, Graph: g}
+	return &onnx.ModelProto{OpsetImport: opsetSpelling(c.opset, len(c.nodes)+len(c.inputs)), Graph: g}
+}
+
+// opsetSpelling: import lists that all select the given version of the default operator set: the
+// default domain spelled "" or "ai.onnx", alone or beside the import of another domain (whose lower
+// version does not matter), in either order
+func opsetSpelling(v int64, k int) []*onnx.OperatorSetIdProto {
+	switch k % 5 {
+	case 1:
+		return []*onnx.OperatorSetIdProto{{Domain: "ai.onnx", Version: v}}
+	case 2:
+		return []*onnx.OperatorSetIdProto{{Domain: "ai.onnx.ml", Version: 2}, {Domain: "", Version: v}}
+	case 3:
+		return []*onnx.OperatorSetIdProto{{Domain: "ai.onnx", Version: v}, {Domain: "ai.onnx.ml", Version: 3}}
+	}
+	return []*onnx.OperatorSetIdProto{{Version: v}}
 }
 
 func mkSym(t stens) tensor.Tensor {
